@@ -195,6 +195,25 @@ theorem probing_error_classes (b : Nat → Nat) (p : LParsed) :
     | false => simp [buildCheck, hr, hf]
     | true => simp [buildCheck, hr, hf]
 
+/-- accepted by the probing builder ⇒ every middle table keeps at least one empty bucket.  This is what makes the linear
+probe of `Find` / `FindOrInsert` terminate on absent keys (C20's probing theorems assume a free bucket); a capacity test that
+lets a table fill completely (seeded change C10-1) breaks exactly this. -/
+theorem probing_accept_has_empty_bucket (b : Nat → Nat) (p : LParsed) (h : buildCheck .probing b p = .ok ()) :
+    ∀ k, k < p.order → 2 ≤ k →
+      ((probingRun p).1.filter (fun g => g.length == k)).length < b (p.counts.getD (k - 1) 0) := by
+  intro k hk h2
+  have hnf := ((probing_error_classes b p).2.2.mp h).2
+  apply Nat.lt_of_not_le
+  intro hle
+  have hf := (probingFull_iff b p (probingRun p).1).mpr ⟨k, hk, h2, hle⟩
+  rw [hf] at hnf
+  exact absurd hnf (by simp)
+
+/-- the bucket count the loader computes always exceeds the announced entry count (for every multiplier bit pattern) -/
+theorem probingBuckets_gt (multBits n : Nat) : n < KV.Binary.probingBuckets multBits n := by
+  unfold KV.Binary.probingBuckets
+  omega
+
 /-- one step of the probing builder: the key table only grows, and afterwards it contains every reversed prefix
 (length ≥ 2, shorter than the n-gram) of the n-gram just read — the hallucinated blanks -/
 theorem findLower_mono (g : List Word) : ∀ (k : Nat) (keys : List (List Word)) (x : List Word),
@@ -232,8 +251,8 @@ every context of an n-gram of order ≥ 3 present.  (`WellFormed` additionally a
 it, and the driver evaluates it on every accepted mutant.) -/
 def unigramsCover (a : Arpa) : Prop := ∀ x w e, a.gram [x, w] = some e → a.gram [w] ≠ none
 
-theorem trie_accept_wellformed (maxO : Nat) (multOk : Bool) (b : Nat → Nat) (s : Bytes) (p : LParsed) (u : Rat)
-    (h : load .trie maxO multOk b s = .ok p) (cover : unigramsCover (p.toArpa u)) :
+theorem trie_accept_wellformed (maxO : Nat) (multOk : Bool) (b : Nat → Nat) (s : Bytes) (p : LParsed) (u : Rat) (mem : Nat)
+    (h : load .trie maxO multOk b s mem = .ok p) (cover : unigramsCover (p.toArpa u)) :
     KV.Score.WellFormed (p.toArpa u) := by
   unfold load at h
   split at h
@@ -242,6 +261,8 @@ theorem trie_accept_wellformed (maxO : Nat) (multOk : Bool) (b : Nat → Nat) (s
     split at h
     · simp at h
     · rename_i hb
+      split at h
+      · simp at h
       simp only [Except.ok.injEq] at h
       subst h
       have wf := accepted_wellformed maxO multOk s p' hp
@@ -451,8 +472,8 @@ theorem parse_unigramsCover (maxO : Nat) (multOk : Bool) (s : Bytes) (p : LParse
 
 /-- **trie_accept_wellformed, closed form**: no extra hypothesis — everything the trie family accepts satisfies the
 `WellFormed` predicate under which C01/C02 prove "query = ARPA recursion" and state sufficiency. -/
-theorem trie_accept_wellformed_full (maxO : Nat) (multOk : Bool) (b : Nat → Nat) (s : Bytes) (p : LParsed) (u : Rat)
-    (h : load .trie maxO multOk b s = .ok p) : KV.Score.WellFormed (p.toArpa u) := by
+theorem trie_accept_wellformed_full (maxO : Nat) (multOk : Bool) (b : Nat → Nat) (s : Bytes) (p : LParsed) (u : Rat) (mem : Nat)
+    (h : load .trie maxO multOk b s mem = .ok p) : KV.Score.WellFormed (p.toArpa u) := by
   have hp : LoaderArpa.parse maxO multOk s = .ok p := by
     unfold load at h
     split at h
@@ -460,14 +481,39 @@ theorem trie_accept_wellformed_full (maxO : Nat) (multOk : Bool) (b : Nat → Na
     · rename_i p' hp'
       split at h
       · simp at h
-      · simp only [Except.ok.injEq] at h
-        subst h
-        exact hp'
-  exact trie_accept_wellformed maxO multOk b s p u h (parse_unigramsCover maxO multOk s p u hp)
+      · split at h
+        · simp at h
+        · simp only [Except.ok.injEq] at h
+          subst h
+          exact hp'
+  exact trie_accept_wellformed maxO multOk b s p u mem h (parse_unigramsCover maxO multOk s p u hp)
 
 /-- non-vacuity: the demo file is accepted by both families and its `Arpa` is well formed -/
 example : (load .trie 6 true buckets15 demoBytes).toOption.isSome = true := by decide +kernel
 example : (load .probing 6 true buckets15 demoBytes).toOption.isSome = true := by decide +kernel
+
+/-- **trie: duplicates that meet in a merge.**  With everything else in order, the trie family rejects (FormatLoadException
+"Duplicate n-gram detected") exactly when two equal n-grams sit in different sort batches; duplicates inside one
+batch — in particular in every file whose orders fit the sort buffer — are accepted. -/
+theorem trie_duplicate_iff (maxO : Nat) (multOk : Bool) (b : Nat → Nat) (s : Bytes) (p : LParsed) (mem : Nat)
+    (hp : LoaderArpa.parse maxO multOk s = .ok p) (hb : buildCheck .trie b p = .ok ()) :
+    (load .trie maxO multOk b s mem = .error .format ↔ trieDuplicateAcrossBatches p mem = true) ∧
+    (load .trie maxO multOk b s mem = .ok p ↔ trieDuplicateAcrossBatches p mem = false) := by
+  unfold load
+  simp only [hp, hb]
+  cases hd : trieDuplicateAcrossBatches p mem <;> simp
+
+/-- the probing family ignores duplicates (both copies are inserted) -/
+theorem probing_ignores_duplicates (maxO : Nat) (multOk : Bool) (b : Nat → Nat) (s : Bytes) (p : LParsed) (mem : Nat)
+    (hp : LoaderArpa.parse maxO multOk s = .ok p) (hb : buildCheck .probing b p = .ok ()) :
+    load .probing maxO multOk b s mem = .ok p := by
+  unfold load
+  simp [hp, hb]
+
+/-- non-vacuity of the batch logic: five bigrams, batches of two; `[1,2]` in batches 0 and 2 is a cross-batch duplicate,
+two adjacent copies in one batch are not -/
+example : crossBatchDup [[1,2],[3,4],[5,6],[7,8],[1,2]] 2 = true := by decide +kernel
+example : crossBatchDup [[1,2],[1,2],[5,6],[7,8],[9,9]] 2 = false := by decide +kernel
 
 /-! ## no index leaves its region -/
 
@@ -530,20 +576,55 @@ theorem lookups_in_range :
 
 open KV.LoaderBin
 
+/-- the last stage accepts only a file that is long enough and whose vocabulary strings check out -/
+theorem mapAndVocab_ok (req : Request) (bound : Params → Nat) (file : File) (p : Params) (sz : Nat) (p' : Params)
+    (h : mapAndVocab req bound file p sz = .ok p') :
+    p = p' ∧ headerSize p.fixed.order + sz ≤ file.length ∧
+    (p.fixed.hasVocab = true → readWords file (headerSize p.fixed.order + sz) req.enumerate (bound p) = none) := by
+  unfold mapAndVocab at h
+  simp only at h
+  split at h
+  · simp at h
+  · rename_i hc
+    have hlen : ¬ file.length < headerSize p.fixed.order + sz := by
+      intro hlt
+      apply hc
+      simp [hlt]
+    split at h
+    · rename_i hv
+      split at h
+      · simp at h
+      · rename_i hrw
+        simp only [Verdict.ok.injEq] at h
+        exact ⟨h, by omega, fun _ => hrw⟩
+    · rename_i hv
+      simp only [Verdict.ok.injEq] at h
+      exact ⟨h, by omega, fun hv' => absurd hv' hv⟩
+
+theorem mapAndVocab_ne_ub (req : Request) (bound : Params → Nat) (file : File) (p : Params) (sz : Nat) :
+    mapAndVocab req bound file p sz ≠ .ub := by
+  unfold mapAndVocab
+  simp only
+  split
+  · simp
+  · split
+    · split <;> simp
+    · simp
+
 /-- **header acceptance is sound**: if the binary branch accepts a file then the stored type and search version
 are the requested ones, the order is what `CheckCounts` lets through and at most `KENLM_MAX_ORDER`, exactly
 `order` counts were read, the multiplier is not below 1, a requested vocabulary is present, the file is at least as
 long as header + `Size`, and the vocabulary strings (if any) start with `<unk>\0` at that offset — with the word
 count matching when the caller enumerates. -/
-theorem header_accept_sound (req : Request) (size : Params → Option Nat) (bound : Params → Nat) (file : File) (p : Params)
+theorem header_accept_sound (req : Request) (size : Params → SizeR) (bound : Params → Nat) (file : File) (p : Params)
     (h : loadBinary req size bound file = .ok p) :
     recognize file = .header p.fixed ∧
     p.fixed.modelType = req.modelType ∧ p.fixed.searchVersion = req.searchVersion ∧
     checkCountsMinOrder ≤ p.fixed.order ∧ 1 ≤ p.fixed.order ∧ p.fixed.order ≤ maxOrder ∧
     readCounts p.fixed.order (file.drop (sizeofSanity + sizeofFixed)) = some p.counts ∧
-    floatLtOne p.fixed.multBits = false ∧
+    floatNotGeOne p.fixed.multBits = false ∧
     (req.enumerate = true → p.fixed.hasVocab = true) ∧
-    ∃ sz, size p = some sz ∧ headerSize p.fixed.order + sz ≤ file.length ∧
+    ∃ sz, size p = .known sz ∧ headerSize p.fixed.order + sz ≤ file.length ∧
       (p.fixed.hasVocab = true → readWords file (headerSize p.fixed.order + sz) req.enumerate (bound p) = none) := by
   unfold loadBinary at h
   split at h
@@ -581,51 +662,35 @@ theorem header_accept_sound (req : Request) (size : Params → Option Nat) (boun
                       · simp at h
                       · split at h
                         · simp at h
+                        · simp at h
                         · rename_i sz hsz
-                          try simp only at h
-                          split at h
-                          · simp at h
-                          · rename_i hlen
-                            have hty' : f.modelType = req.modelType := by simpa using hty
-                            have hsv' : f.searchVersion = req.searchVersion := by simpa using hsv
-                            have h0' : f.order ≠ 0 := by simpa using h0
-                            have hen' : req.enumerate = true → f.hasVocab = true := by
-                              intro he
-                              simp only [he, Bool.true_and, Bool.not_eq_true', Bool.not_eq_false] at hen
-                              exact hen
-                            have hm' : floatLtOne f.multBits = false := by simpa using hmult
-                            split at h
-                            · rename_i hv
-                              split at h
-                              · simp at h
-                              · rename_i hrw
-                                simp only [Verdict.ok.injEq] at h
-                                subst h
-                                dsimp only at hlen hsz hrw ⊢
-                                exact ⟨hrec, hty', hsv', by omega, by omega, by omega, hcs, hm', hen',
-                                  sz, hsz, by omega, fun _ => hrw⟩
-                            · rename_i hv
-                              simp only [Verdict.ok.injEq] at h
-                              subst h
-                              dsimp only at hlen hsz ⊢
-                              refine ⟨hrec, hty', hsv', by omega, by omega, by omega, hcs, hm', hen', sz, hsz, by omega, ?_⟩
-                              intro hv'
-                              exact absurd hv' hv
+                          have hty' : f.modelType = req.modelType := by simpa using hty
+                          have hsv' : f.searchVersion = req.searchVersion := by simpa using hsv
+                          have h0' : f.order ≠ 0 := by simpa using h0
+                          have hen' : req.enumerate = true → f.hasVocab = true := by
+                            intro he
+                            simp only [he, Bool.true_and, Bool.not_eq_true', Bool.not_eq_false] at hen
+                            exact hen
+                          have hm' : floatNotGeOne f.multBits = false := by simpa using hmult
+                          obtain ⟨hp, hle, hw⟩ := mapAndVocab_ok req bound file _ sz p h
+                          subst hp
+                          dsimp only at hsz hle hw ⊢
+                          exact ⟨hrec, hty', hsv', by omega, by omega, by omega, hcs, hm', hen', sz, hsz, hle, hw⟩
 
 /-- **header_mismatch.**  For a file whose Sanity block matches: another model type, another search version, an
 order above `KENLM_MAX_ORDER` or below what `CheckCounts` accepts, a multiplier below 1, or a missing vocabulary
 the caller asked for — each makes the constructor throw: the verdict is an error (FormatLoadException, or
 end-of-file when the file stops inside the counts), never `ok`, never undefined behaviour. -/
-theorem header_mismatch (req : Request) (size : Params → Option Nat) (bound : Params → Nat) (file : File) (f : Fixed)
+theorem header_mismatch (req : Request) (size : Params → SizeR) (bound : Params → Nat) (file : File) (f : Fixed)
     (hrec : recognize file = .header f)
     (hm : f.modelType ≠ req.modelType ∨ f.searchVersion ≠ req.searchVersion ∨ maxOrder < f.order ∨
-          f.order < checkCountsMinOrder ∨ floatLtOne f.multBits = true ∨
+          f.order < checkCountsMinOrder ∨ floatNotGeOne f.multBits = true ∨
           (req.enumerate = true ∧ f.hasVocab = false ∧ f.order ≠ 0 ∧ isNaN f.multBits = false)) :
     loadBinary req size bound file = .error .format ∨
     (readCounts f.order (file.drop (sizeofSanity + sizeofFixed)) = none ∧ loadBinary req size bound file = .error .eof) := by
   unfold loadBinary
   simp only [hrec]
-  by_cases h1 : floatLtOne f.multBits = true
+  by_cases h1 : floatNotGeOne f.multBits = true
   · simp [h1]
   · simp only [h1, Bool.false_eq_true, ↓reduceIte]
     by_cases h2 : (isNaN f.multBits && readHeaderRejectsNaN) = true
@@ -652,7 +717,7 @@ theorem header_mismatch (req : Request) (size : Params → Option Nat) (bound : 
         · simp [h3]
 
 /-- other magic / version / incomplete files of sufficient length are rejected before anything is read -/
-theorem header_version_mismatch (req : Request) (size : Params → Option Nat) (bound : Params → Nat) (file : File)
+theorem header_version_mismatch (req : Request) (size : Params → SizeR) (bound : Params → Nat) (file : File)
     (hlen : sizeofSanity < file.length) (hne : (file.take sizeofSanity == sanityRef) = false)
     (hmagic : magicIncomplete.isPrefixOf file = true ∨ magicBeforeVersion.isPrefixOf file = true) :
     loadBinary req size bound file = .error .format := by
@@ -664,19 +729,19 @@ theorem header_version_mismatch (req : Request) (size : Params → Option Nat) (
   · by_cases h' : magicIncomplete.isPrefixOf file = true <;> simp [h, h']
 
 /-- a file shorter than header + `Size` is never accepted (truncation anywhere before the vocabulary strings) -/
-theorem header_truncated_rejected (req : Request) (size : Params → Option Nat) (bound : Params → Nat) (file : File) (p : Params)
-    (sz : Nat) (hsz : size p = some sz) (hshort : file.length < headerSize p.fixed.order + sz) :
+theorem header_truncated_rejected (req : Request) (size : Params → SizeR) (bound : Params → Nat) (file : File) (p : Params)
+    (sz : Nat) (hsz : size p = .known sz) (hshort : file.length < headerSize p.fixed.order + sz) :
     loadBinary req size bound file ≠ .ok p := by
   intro h
   obtain ⟨_, _, _, _, _, _, _, _, _, sz', hsz', hle, _⟩ := header_accept_sound req size bound file p h
   rw [hsz] at hsz'
-  simp only [Option.some.injEq] at hsz'
+  simp only [SizeR.known.injEq] at hsz'
   subst hsz'
   omega
 
 /-- **header_no_ub.**  Once `CheckCounts` has a lower bound (≥ 1 suffices for the model; the repaired tree has 2)
 and `ReadHeader` rejects NaN, no header sends the constructor into undefined behaviour. -/
-theorem header_no_ub (req : Request) (size : Params → Option Nat) (bound : Params → Nat) (file : File)
+theorem header_no_ub (req : Request) (size : Params → SizeR) (bound : Params → Nat) (file : File)
     (h1 : 1 ≤ checkCountsMinOrder) (h2 : readHeaderRejectsNaN = true) :
     loadBinary req size bound file ≠ .ub := by
   unfold loadBinary
@@ -711,15 +776,12 @@ theorem header_no_ub (req : Request) (size : Params → Option Nat) (bound : Par
                     · simp only [hn, Bool.false_and, Bool.false_eq_true, ↓reduceIte]
                       split
                       · simp
-                      · split
-                        · simp
-                        · split
-                          · split <;> simp
-                          · simp
+                      · simp
+                      · exact mapAndVocab_ne_ub _ _ _ _ _
 
 /-- on the tree as regenerated *now*: the witness headers the model sends into undefined behaviour, if any.
 (`checks/C10.py` replays exactly these on the real loader when the constants are unsafe.) -/
-theorem ub_witnesses_only_when_unguarded (req : Request) (size : Params → Option Nat) (bound : Params → Nat) (file : File)
+theorem ub_witnesses_only_when_unguarded (req : Request) (size : Params → SizeR) (bound : Params → Nat) (file : File)
     (h : loadBinary req size bound file = .ub) : checkCountsMinOrder = 0 ∨ readHeaderRejectsNaN = false := by
   by_cases h1 : 1 ≤ checkCountsMinOrder
   · by_cases h2 : readHeaderRejectsNaN = true
